@@ -451,14 +451,14 @@ def download_jobs(tier, want, faults=True, monitor_fs=False, pre=(None,)):
                          ioq=ioq, conc=conc, preexisting=p_)
                     for size, t_, c_, conc in ((5, 4, 2, 2), (6, 3, 3, 2), (5, 1, 2, 1))]
             jobs.append({'name': f'legacy threaded download plain ioq={ioq} pre={p_}', 'scns': scns,
-                         'bound': {'sched': 2 if q else 3}, 'want': want, 'monitor_fs': monitor_fs, 'max_execs': 300000})
+                         'bound': {'sched': 2}, 'want': want, 'monitor_fs': monitor_fs, 'max_execs': 300000})
             if faults:
                 fs_ = {'sites': ['s3:', 'stream:retryable', 'stream:fatal', 'fs:open', 'fs:write', 'fs:close', 'fs:rename', 'fs:seek']}
                 jobs.append({'name': f'legacy threaded download fault ioq={ioq} pre={p_}',
                              'scns': [dict(sc, faults=fs_) for sc in scns],
-                             'bound': {'sched': 1, 'env': 1} if q else {'sched': 2, 'env': 1}, 'want': want,
+                             'bound': {'sched': 1, 'env': 1} if (q or ioq == 1) else {'sched': 2, 'env': 1}, 'want': want,
                              'monitor_fs': monitor_fs, 'max_execs': 300000})
-                if not q:
+                if not q and ioq == 100:
                     jobs.append({'name': f'legacy threaded download two faults ioq={ioq} pre={p_}',
                                  'scns': [dict(sc, faults=fs_) for sc in scns[:2]],
                                  'bound': {'sched': 1, 'env': 2}, 'want': want,
